@@ -84,12 +84,18 @@ def judge_final(acc, database, path, orig_bytes, orig_rows, case, interrupted):
 def judge_interrupted(acc, database, d, path, orig_bytes, orig_rows, case, what):
     acc.ev["c20_crash_point"] += 1
     acc.ev["c20_" + what] += 1
-    # no old row lost in the main file (read through plain sqlite3, which performs recovery)
+    # no old row lost in the main file: read through plain sqlite3 (which performs recovery) on a COPY of the
+    # files, so that the restart below meets exactly what the crash left (hot journal included)
+    peek = new_workdir("c20p")
     try:
-        now = old_rows(path)
+        for f in os.listdir(d):
+            shutil.copy(os.path.join(d, f), os.path.join(peek, f))
+        now = old_rows(os.path.join(peek, os.path.basename(path)))
     except Exception as e:
         viol(acc, case, "main file unreadable after an interrupted upgrade", {"exc": repr(e)})
         return
+    finally:
+        rmtree(peek)
     if now != orig_rows:
         viol(acc, case, "interrupted upgrade lost usage records", {"before": {t: len(v) for t, v in orig_rows.items()},
                                                                   "after": {t: len(v) for t, v in now.items()}})
@@ -110,7 +116,7 @@ def jobs(pid, tier, seed):
     for i in range(nin):
         for kind in ("die-stmt", "die-fs", "raise-fs", "raise-auth", "strace"):
             for part in range(NPARTS):
-                out.append({"kind": kind, "input": seed * 1000 + i, "part": part, "stride": (3 if kind == "strace" and tier == "quick" else 1)})
+                out.append({"kind": kind, "input": seed * 1000 + i, "part": part, "stride": 1})
     n = 64 if tier == "quick" else 1500
     out += [{"kind": "plain", "input": seed * 1000003 + 100 + i} for i in range(n)]
     return out
